@@ -255,6 +255,10 @@ func (e *VerifC20Engine) one(t *c20Target, cred c20Cred, variant string) {
 
 	permsOK := !anyPerms || (cred.authentic && (held || c20HasCI(cred.perms, "ego.root")))
 	input := fmt.Sprintf("%s | %s %s | credential=%s | db=%v | variant=%s", t.label, t.method, t.path, cred.form, e.db, variant)
+	if len(e.history) > 0 {
+		// a request of a SEQUENCE: the failing input is the whole history up to this request
+		input += " | history: " + strings.Join(e.history, "; ")
+	}
 	fail := func(class, what, got, wantS string) {
 		e.nfail++
 		e.perClass[class]++
